@@ -5,6 +5,7 @@ from lib import pipeline
 LEVEL = "proof"
 MODEL_FILES = ["Model/GraphM.v", "Model/GraphIO.v"]
 THEOREMS = []
+EXTRA_PROPS = ["C01b"]
 STREAMS = [("C01", 1500, 60000)]
 SHARD = 1500
 RELEASE_TOO = True
